@@ -675,7 +675,8 @@ func (w *walker) opRead() {
 			w.st.inc("errors_excused_during_outage", 1)
 			return
 		}
-		w.violate("open:errno@"+store, fmt.Sprintf("Open(%q): errno %v with a healthy registry", "/"+p, errno), map[string]any{"path": p})
+		sf := w.stateFile()
+		w.violate("open:errno"+errClass(sf, store), fmt.Sprintf("Open(%q): errno %v with a healthy registry; layer state file: %s", "/"+p, errno, strings.TrimSpace(sf)), map[string]any{"path": p, "state_file": sf})
 		return
 	}
 	defer nodefs.Release(fh)
@@ -704,8 +705,9 @@ func (w *walker) opRead() {
 				w.st.inc("errors_excused_during_outage", 1)
 				continue
 			}
-			w.violate("read:errno@"+store, fmt.Sprintf("Read(%q, off=%d, len=%d): errno %v with a healthy registry (file size %d)", "/"+p, off, ln, errno, mn.Size),
-				map[string]any{"path": p, "off": off, "len": ln, "size": mn.Size, "state_file": w.stateFile()})
+			sf := w.stateFile()
+			w.violate("read:errno"+errClass(sf, store), fmt.Sprintf("Read(%q, off=%d, len=%d): errno %v with a healthy registry (file size %d); layer state file: %s", "/"+p, off, ln, errno, mn.Size, strings.TrimSpace(sf)),
+				map[string]any{"path": p, "off": off, "len": ln, "size": mn.Size, "state_file": sf})
 			continue
 		}
 		want := clamp(mn.Size, off, ln)
@@ -805,28 +807,49 @@ func (w *walker) checkPassthrough(p string, mn *gen.Node, fd int) {
 	w.st.inc("cmp.passthrough_bytes", int64(n))
 }
 
+// errClass turns the layer's last reported error (state file; the node layer only answers
+// EIO) into the class part of a violation key. The state file holds the LAST error of the
+// layer, so under concurrency the class is a best effort; it only selects the key.
+func errClass(stateFile, store string) string {
+	switch {
+	case strings.Contains(stateFile, "context canceled"):
+		// a foreground read that joined the singleflight fetch of a cancellable background
+		// fetch inherits that fetch's cancellation (fs/remote/blob.go fetchRange)
+		return ":context-canceled"
+	case strings.Contains(stateFile, "context deadline exceeded"):
+		return ":deadline-exceeded"
+	case strings.Contains(stateFile, "failed to fetch region"):
+		return ":region-not-fetched"
+	case strings.Contains(stateFile, "invalid chunk"):
+		return ":chunk-verification@" + store
+	}
+	return "@" + store
+}
+
 // stateFile reads the layer's state file (last reported error) for a replay record.
 func (w *walker) stateFile() string {
-	root := w.er.roots[0]
-	sd, _, errno := root.Lookup(".stargz-snapshotter")
-	if errno != 0 {
-		return ""
-	}
-	ents, errno := sd.Readdir()
-	if errno != 0 || len(ents) == 0 {
-		return ""
-	}
-	sf, _, errno := sd.Lookup(ents[0].Name)
-	if errno != 0 {
-		return ""
-	}
-	if rd, ok := sf.Ops.(fusefs.NodeReader); ok {
-		dest := make([]byte, 4096)
-		rr, errno := rd.Read(bg, nil, dest, 0)
-		if errno == 0 {
-			b, _ := rr.Bytes(dest)
-			return string(b)
+	var sb strings.Builder
+	for _, root := range w.er.roots { // every RootNode() has its own state file
+		sd, _, errno := root.Lookup(".stargz-snapshotter")
+		if errno != 0 {
+			continue
+		}
+		ents, errno := sd.Readdir()
+		if errno != 0 || len(ents) == 0 {
+			continue
+		}
+		sf, _, errno := sd.Lookup(ents[0].Name)
+		if errno != 0 {
+			continue
+		}
+		if rd, ok := sf.Ops.(fusefs.NodeReader); ok {
+			dest := make([]byte, 4096)
+			rr, errno := rd.Read(bg, nil, dest, 0)
+			if errno == 0 {
+				b, _ := rr.Bytes(dest)
+				sb.Write(b)
+			}
 		}
 	}
-	return ""
+	return sb.String()
 }
